@@ -9,6 +9,9 @@ CHECKS = {
  "C11": ("exploration", "bounded-exhaustive enumeration of expression ASTs (every ast.expr class x every child position, depth 3) against a reference whitelist walk; audit hook during compile and evaluation",
          "Every expression AST up to depth 3 over every expression node class and operator class of the running interpreter (full product at depth 2, every class x every child position at depth 3) and an escape corpus embedded at 22 positions nested twice are pushed through ExpressionEvaluator.compile; whatever is accepted must pass an independent whitelist walk that visits every child position, a code-object name check and an audited evaluation. Exhaustive to the depth bound, so an unvisited child position is found by enumeration of positions, not of attacks.",
          "CPython ast / ast.unparse round trip; sys.addaudithook; codec-lookup imports of the whitelisted str() builtin (encodings.*) are not counted as an escape", "3 C11"),
+ "C14": ("model_checking", "stateless preemption-bounded schedule exploration (CHESS style) of real threads on the real transport under a cooperative scheduler with line-level scheduling points",
+         "All schedules of 8 small harnesses (2-3 publishers, 0-2 subscribers, new/existing channels, exact and wildcard patterns) with at most 1-2 (thorough 2-3) preemptions are executed on the real InMemorySemantivaTransport; each complete schedule is checked for exactly-once delivery, per-publisher channel order and pattern routing, and deadlock. The losing interleaving inside lazy channel creation needs one preemption in a window of a few bytecodes - enumeration hits it on every run, a free-running test essentially never.",
+         "CPython GIL; line-granularity switching; threading.Lock replaced by a cooperative lock inside in_memory.py for the duration of the check", "3 C14"),
 }
 NA = []
 def main():
